@@ -7,6 +7,7 @@ on are *read from the current source text on every run* and written to
     lean/LpModel/C03/Constants.lean   namespace Lp.C03.K     (src/Integration.cpp)
     lean/LpModel/C01/Constants.lean   namespace Lp.C01.K     (src/Numerics.cpp §1; imported by LpModel/Interp.lean)
     lean/LpModel/C11/Constants.lean   namespace Lp.C11.K     (src/Numerics.cpp §3)
+    lean/LpModel/C06/Constants.lean   namespace Lp.C06.K     (src/Special_Functions.cpp §2.1)
 
 as one `abbrev name : Rat|Nat|Int := value` per constant (abbrev = reducible, so `ring`, `norm_num`,
 `simp`, `decide` see through it).  The models refer to these names instead of carrying literals: a
@@ -18,6 +19,7 @@ end pattern) and a template of the statement around the literal.  Templates are 
 literal.  Conversion of the literal to an exact value:
 
     dec   decimal floating literal, exactly as written  (0.5 -> 1/2, 1e-2 -> 1/100, 1.618034 -> 809017/500000)
+    declist  comma-separated initialiser list of decimal literals -> `List Rat`, element-wise as `dec`
     nat   non-negative integer literal (a floating literal with integral value is accepted: 100.0 -> 100)
     eps   `std::numeric_limits<double>::epsilon()` -> 1/2^52, or a decimal literal
 
@@ -42,6 +44,8 @@ class TranslateError(Exception):
 
 LIT = r"[-+]?(?:\d+\.\d*|\.\d+|\d+)(?:[eE][-+]?\d+)?"
 EPS_OR_LIT = r"std\s*::\s*numeric_limits\s*<\s*double\s*>\s*::\s*epsilon\s*\(\s*\)|" + LIT
+
+LIT_LIST = LIT + r"(?:\s*,\s*" + LIT + r")*"
 
 _TOK = re.compile(r"\s*([A-Za-z_]\w*|\d+\.\d*(?:[eE][-+]?\d+)?|\.\d+|\d+|::|<=|>=|==|!=|&&|\|\||--|\+\+|.)", re.S)
 
@@ -82,6 +86,13 @@ SCOPES = {
     # name: (file, start template, end regex searched after the start)
     "adaptive": ("src/Integration.cpp", "double Adaptive_Simpson_Integration(std::function<double(double)> func, double a, double b, double epsilon, double S", r"^\}"),
     "integrate": ("src/Integration.cpp", "double Integrate(std::function<double(double)> func, double a, double b, double epsilon, int maxRecursionDepth)", r"^\}"),
+    "factorial": ("src/Special_Functions.cpp", "double Factorial(unsigned int n)", r"^\}"),
+    "gammaln": ("src/Special_Functions.cpp", "double GammaLn(double x)", r"^\}"),
+    "gammaqint": ("src/Special_Functions.cpp", "double GammaQint(double x, double a)", r"^\}"),
+    "gammapser": ("src/Special_Functions.cpp", "double GammaPser(double x, double a)", r"^\}"),
+    "gammaqcf": ("src/Special_Functions.cpp", "double GammaQcf(double x, double a)", r"^\}"),
+    "gammaq": ("src/Special_Functions.cpp", "double GammaQ(double x, double a)", r"^\}"),
+    "invgammap": ("src/Special_Functions.cpp", "double Inv_GammaP(double p, double a)", r"^\}"),
     "steffen": ("src/Numerics.cpp", "void Interpolation::Compute_Steffen_Coefficients()", r"^\}"),
     "steffen_first": ("src/Numerics.cpp", "void Interpolation::Compute_Steffen_Coefficients()", r"else\s+if\s*\(\s*i\s*==\s*N\s*-\s*1\s*\)"),
     "steffen_last": ("src/Numerics.cpp", "else if(i == N - 1)", r"\belse\b"),
@@ -106,6 +117,45 @@ SPEC = {
         C("depthStepR", "adaptive", "Sright, fc, fb, fe, bottom - @, warning)", "nat", "1", "recursion depth consumed by the right call"),
         C("coarseDiv", "integrate", "double S = (h / @) * (fa +", "dec", "6", "divisor of the coarse Simpson rule"),
         C("coarseMidW", "integrate", "double S = (h / #) * (fa + @ * fc + fb);", "dec", "4", "mid-point weight of the coarse Simpson rule"),
+    ]),
+    "C06": dict(namespace="Lp.C06.K", out="LpModel/C06/Constants.lean", consts=[
+        # Factorial
+        C("factMax", "factorial", "if(n > @)", "nat", "170", "largest argument of Factorial (170! is the last finite double factorial)"),
+        # GammaLn (Lanczos)
+        C("cof", "gammaln", "double cof[#] = {@};", "declist", "57.1562356658629235, -59.5979603554754912, 14.1360979747417471, -0.491913816097620199, .339946499848118887e-4, .465236289270485756e-4, -.983744753048795646e-4, .158088703224912494e-3, -.210264441724104883e-3, .217439618115212643e-3, -.164318106536763890e-3, .844182239838527433e-4, -.261908384015814087e-4, .368991826595316234e-5", "the Lanczos coefficients cof[] (decimal literals, exactly)", LIT_LIST),
+        C("lanczosTerms", "gammaln", "for(int j = 0; j < @; j++)", "nat", "14", "number of terms of the Lanczos sum"),
+        C("lanczos0", "gammaln", "double sum = @;", "dec", "0.999999999999997092", "start value of the Lanczos sum"),
+        C("tmpNum", "gammaln", "double tmp = x + @ / #;", "dec", "671.0", "tmp = x + 671/128: numerator"),
+        C("tmpDen", "gammaln", "double tmp = x + # / @;", "dec", "128.0", "tmp = x + 671/128: denominator"),
+        C("lnHalf", "gammaln", "tmp = (x + @) * log(tmp) - tmp;", "dec", "0.5", "(x + 1/2) log(tmp) - tmp"),
+        C("sqrt2pi", "gammaln", "log(@ * sum)", "dec", "2.5066282746310005", "sqrt(2 pi) as written"),
+        # GammaQint
+        C("qintN", "gammaqint", "double N = @;", "dec", "13", "half width of the quadrature window in units of sqrt(a)"),
+        C("qintPeak", "gammaqint", "double tPeak = a - @;", "dec", "1.0", "peak of the integrand at a - 1"),
+        # GammaPser / GammaQcf
+        C("pserEps", "gammapser", "double eps = @;", "eps", "std::numeric_limits<double>::epsilon()", "termination threshold of the series", EPS_OR_LIT),
+        C("qcfEps", "gammaqcf", "double eps = @;", "eps", "std::numeric_limits<double>::epsilon()", "termination threshold of the continued fraction", EPS_OR_LIT),
+        # GammaQ
+        C("aMax", "gammaq", "double aMax = @;", "dec", "100.0", "a > aMax: quadrature branch"),
+        C("seriesSwitch", "gammaq", "else if(x < a + @)", "dec", "1.0", "x < a + 1: series, else continued fraction"),
+        # Inv_GammaP
+        C("invTopFloor", "invgammap", "return std::max(@, a + # * sqrt(a));", "dec", "100.0", "p >= 1: max(100, a + 100 sqrt(a))"),
+        C("invTopWidth", "invgammap", "return std::max(#, a + @ * sqrt(a));", "dec", "100.", "p >= 1: max(100, a + 100 sqrt(a))"),
+        C("invG1a", "invgammap", "x = (@ + t * #) / (# + t * (# + t * #)) - t;", "dec", "2.30753", "initial guess 1 (A&S 26.2.22)"),
+        C("invG1b", "invgammap", "x = (# + t * @) / (# + t * (# + t * #)) - t;", "dec", "0.27061", "initial guess 1"),
+        C("invG1c", "invgammap", "x = (# + t * #) / (# + t * (@ + t * #)) - t;", "dec", "0.99229", "initial guess 1"),
+        C("invG1d", "invgammap", "x = (# + t * #) / (# + t * (# + t * @)) - t;", "dec", "0.04481", "initial guess 1"),
+        C("invG1floor", "invgammap", "x = std::max(@, a * pow(", "dec", "1.0e-3", "floor of initial guess 1"),
+        C("invG1nine", "invgammap", "a * pow(# - # / (@ * a) - x / (# * sqrt(a)), #)", "dec", "9.", "Wilson-Hilferty: 1 - 1/(9a)"),
+        C("invG1three", "invgammap", "a * pow(# - # / (# * a) - x / (@ * sqrt(a)), #)", "dec", "3.", "Wilson-Hilferty: x/(3 sqrt a)"),
+        C("invG1cube", "invgammap", "a * pow(# - # / (# * a) - x / (# * sqrt(a)), @)", "dec", "3.0", "Wilson-Hilferty: cube"),
+        C("invG2a", "invgammap", "double t = # - a * (@ + a * #);", "dec", "0.253", "initial guess 2"),
+        C("invG2b", "invgammap", "double t = # - a * (# + a * @);", "dec", "0.12", "initial guess 2"),
+        C("invEps", "invgammap", "double EPS = @;", "dec", "1.0e-8", "EPS of Halley's iteration"),
+        C("invIter", "invgammap", "for(int i = 0; i < @; i++)", "nat", "12", "largest number of Halley passes"),
+        C("halleyHalf", "invgammap", "u / (# - @ * std::min(#, u *", "dec", "0.5", "Halley correction factor"),
+        C("halleyCap", "invgammap", "u / (# - # * std::min(@, u *", "dec", "1.", "cap of the Halley correction"),
+        C("halleyBack", "invgammap", "x = @ * (x + t);", "dec", "0.5", "x <= 0: halve the old x"),
     ]),
     "C01": dict(namespace="Lp.C01.K", out="LpModel/C01/Constants.lean", consts=[
         # slope limiter, interior points:  min(1.0*|p|/2.0, min(1.0*|s_i|, 1.0*|s_{i-1}|))
@@ -154,6 +204,11 @@ SPEC = {
 def convert(kind, text):
     """literal text -> (lean type, Fraction)"""
     t = re.sub(r"\s+", "", text)
+    if kind == "declist":
+        try:
+            return "List Rat", tuple(Fraction(e) for e in t.split(","))
+        except (ValueError, ZeroDivisionError):
+            raise TranslateError("initialiser list %r is not a list of decimal numbers" % text)
     if kind == "eps" and t.startswith("std"):
         return "Rat", Fraction(1, 2 ** 52)
     try:
@@ -174,6 +229,8 @@ def convert(kind, text):
 
 
 def lean_value(ty, v):
+    if isinstance(v, tuple):
+        return "[" + ", ".join(lean_value("Rat", e) for e in v) + "]"
     if v.denominator == 1:
         return str(v.numerator) if v >= 0 else "-%d" % -v.numerator
     return "%s%d / %d" % ("-" if v < 0 else "", abs(v.numerator), v.denominator)
